@@ -353,4 +353,156 @@ theorem C04_dead_rows_counterexample :
       | .error e => e == "lm index"
       | .ok _ => false) = true := by decide +kernel
 
+/-! ## Audit: the contract hypotheses hold for a language model whose scores depend on the TOKENS of the
+history through threaded state, and every theorem above applied to concrete non-trivial runs
+
+`exLM` above only counts its calls. `hLM` is what the property's quantifier asks for ("language models whose
+next-token scores depend on the whole history through threaded state"): its state is the history consumed so
+far, the newest token is read off the history tensor at `hist[idx - 1]` (as a recurrent
+`calc_idx_log_probs` does), and the score of token 0 depends on the SUM of the history's tokens — two
+histories of the same length get different rows, so a state that followed the wrong path would be visible. -/
+
+def hLM : LM (List Int) :=
+  ⟨fun t col st =>
+    let h := if t = 0 then [] else st ++ [col.getD (t - 1) 0]
+    ([some (-(h.sum : Rat) - 1), some (-2), some (-(3 : Rat) / 2)], h)⟩
+
+def hSpec (h : List Int) : List Score := [some (-(h.sum : Rat) - 1), some (-2), some (-(3 : Rat) / 2)]
+
+/-- `Rep h st`: the state has consumed everything but the newest token. -/
+def hRep (h : List Int) (st : List Int) : Prop := st = h.dropLast
+
+theorem hLM_ok : LMOK 3 hLM hSpec hRep := by
+  refine ⟨fun _ _ _ => rfl, ?_⟩
+  intro h st col hrep htake
+  have hh : (if h.length = 0 then [] else st ++ [col.getD (h.length - 1) 0]) = h := by
+    by_cases h0 : h.length = 0
+    · rw [if_pos h0, List.eq_nil_of_length_eq_zero h0]
+    · rw [if_neg h0, hrep]
+      have hne : h ≠ [] := fun e => h0 (by rw [e]; rfl)
+      have hl : col.getD (h.length - 1) 0 = h.getLast hne := by
+        have hlt : h.length - 1 < h.length := by omega
+        have : (col.take h.length)[h.length - 1]? = col[h.length - 1]? := by
+          rw [List.getElem?_take]; simp [hlt]
+        rw [htake] at this
+        rw [List.getD_eq_getElem?_getD, ← this, List.getLast_eq_getElem, List.getElem?_eq_getElem hlt]
+        rfl
+      rw [hl]; exact List.dropLast_append_getLast hne
+  refine ⟨?_, fun v => ?_⟩
+  · show [some (-((if h.length = 0 then [] else st ++ [col.getD (h.length - 1) 0] : List Int).sum : Rat) - 1),
+        some (-2), some (-(3 : Rat) / 2)] = hSpec h
+    rw [hh]; rfl
+  · show (if h.length = 0 then [] else st ++ [col.getD (h.length - 1) 0]) = (h ++ [v]).dropLast
+    rw [hh]; simp
+
+theorem hSpec_live : SpecLive 3 hSpec := fun _ => ⟨1, by decide, by simp [hSpec]⟩
+
+/-- width 2 < V = 3 (pruning at every step), eos = 1, `finish_all_paths`. -/
+def hCfg : Cfg := ⟨3, 2, some 1, true, -1, 0, false⟩
+
+/-- The run: pruning happens at every step (3, then 6 candidates for 2 slots) and the rows differ between
+the two surviving paths (`[0]`: token 0 scores -1; `[2]`: token 0 scores -3). -/
+theorem hSearch_ok : search selIns hCfg hLM [] [[]] 3
+    = .ok [[⟨[0, 0, 0], 3, some (-3)⟩, ⟨[0, 0, 2], 3, some (-(7 : Rat) / 2)⟩]] := by
+  have h : (search selIns hCfg hLM [] [[]] 3).toOption
+      = some [[⟨[0, 0, 0], 3, some (-3)⟩, ⟨[0, 0, 2], 3, some (-(7 : Rat) / 2)⟩]] := by decide +kernel
+  cases hs : search selIns hCfg hLM [] [[]] 3 with
+  | error e => rw [hs] at h; simp [Except.toOption] at h
+  | ok v => rw [hs] at h; simp [Except.toOption] at h; rw [h]
+
+-- C04_score / C04_distinct / C04_eos / C04_sorted (+ C04_neginf_last) on this run: ALL hypotheses together
+example := C04_score (cfg := hCfg) C04_selIns_ok hLM_ok (by decide) (by decide) [] (inits := [[]])
+  (by intro s hs; simp at hs; subst hs; rfl) hSearch_ok
+example := C04_distinct (cfg := hCfg) C04_selIns_ok hLM_ok (by decide) (by decide) [] (inits := [[]])
+  (by intro s hs; simp at hs; subst hs; rfl) hSearch_ok
+example := C04_eos (cfg := hCfg) C04_selIns_ok hLM_ok (by decide) (by decide) [] (inits := [[]])
+  (by intro s hs; simp at hs; subst hs; rfl) hSearch_ok
+example := fun beam hb => C04_neginf_last ((C04_sorted (cfg := hCfg) C04_selIns_ok hLM_ok (by decide) (by decide) []
+  (inits := [[]]) (by intro s hs; simp at hs; subst hs; rfl) hSearch_ok beam hb).2)
+
+/-- C04_state_follows: the loop stopped after two steps; the stored states `[0]`, `[0]` are the consumed parts
+of the two live paths `[0,0]`, `[0,2]`. -/
+theorem hLoop_ok : loop selIns hCfg hLM [] 2 0 0 1 ([[]].map initElem)
+    = .ok (2, [⟨[⟨[0, 0], 2, some (-2)⟩, ⟨[0, 2], 2, some (-(5 : Rat) / 2)⟩], [[0], [0]]⟩]) := by
+  have h : ((loop selIns hCfg hLM [] 2 0 0 1 ([[]].map initElem)).toOption.map
+        fun x => (x.1, x.2.map fun e => (e.slots, e.sts)))
+      = some (2, [([⟨[0, 0], 2, some (-2)⟩, ⟨[0, 2], 2, some (-(5 : Rat) / 2)⟩], [[0], [0]])]) := by decide +kernel
+  cases hs : loop selIns hCfg hLM [] 2 0 0 1 ([[]].map initElem) with
+  | error e => rw [hs] at h; simp [Except.toOption] at h
+  | ok v =>
+    rw [hs] at h
+    obtain ⟨S, elems⟩ := v
+    simp only [Except.toOption, Option.map_some, Option.some.injEq, Prod.mk.injEq] at h
+    obtain ⟨rfl, h2⟩ := h
+    match elems, h2 with
+    | [⟨sl, st⟩], h2 =>
+      simp only [List.map_cons, List.map_nil, List.cons.injEq, Prod.mk.injEq, and_true] at h2
+      obtain ⟨rfl, rfl⟩ := h2
+      rfl
+example := C04_state_follows (cfg := hCfg) C04_selIns_ok hLM_ok (by decide) (by decide) [] (inits := [[]])
+  (by intro s hs; simp at hs; subst hs; rfl) hLoop_ok
+
+/-! ### A batch whose elements follow DIFFERENT distributions
+
+`exLM` counts its calls; started from `0` and from `5` it is two different distributions
+(`exSpecs 0`, `exSpecs 5`). -/
+
+def exSpecs (i : Nat) (h : List Int) : List Score :=
+  [some (-((h.length + i : Nat) : Int) - 1 : Rat), some (-2), some (-(3 : Rat) / 2)]
+
+theorem exLM_family_ok (i : Nat) : LMOK 3 exLM (exSpecs i) (fun h n => n = h.length + i) := by
+  refine ⟨fun _ _ _ => rfl, ?_⟩
+  intro h st col hrep _
+  subst hrep
+  refine ⟨rfl, fun v => ?_⟩
+  simp [exLM]; omega
+
+theorem exSpecs_live (i : Nat) : SpecLive 3 (exSpecs i) := fun _ => ⟨1, by decide, by simp [exSpecs]⟩
+
+/-- The joint run with width 9 ≥ number of complete sequences of two steps (7): the two elements return
+different sets of scores; `[1]` (eos) finished after one step in both. -/
+theorem exBatch_ok : ∃ out, search selIns exCfgWide exLM 0 [0, 5] 2 = .ok out :=
+  C04_no_error (cfg := exCfgWide) (specs := exSpecs) (Reps := fun i h n => n = h.length + i)
+    C04_selIns_ok exLM_family_ok (by decide) (by decide) 0 rfl (Or.inr exSpecs_live)
+    (by
+      intro s hs
+      simp only [List.mem_cons, List.mem_nil_iff, or_false] at hs
+      rcases hs with rfl | rfl
+      · exact ⟨0, rfl⟩
+      · exact ⟨5, rfl⟩) (by simp) 2
+
+example : ((search selIns exCfgWide exLM 0 [0, 5] 2).toOption.map fun out =>
+      out.map fun beam => (beam.filter (·.score.isSome)).map fun s => (s.col.take s.len, s.score))
+    = some [[([1], some (-2)), ([0, 2], some (-(5 : Rat) / 2)), ([0, 0], some (-3)), ([0, 1], some (-3)),
+             ([2, 2], some (-3)), ([2, 0], some (-(7 : Rat) / 2)), ([2, 1], some (-(7 : Rat) / 2))],
+            [([1], some (-2)), ([2, 2], some (-3)), ([2, 1], some (-(7 : Rat) / 2)), ([0, 2], some (-(15 : Rat) / 2)),
+             ([0, 1], some (-8)), ([2, 0], some (-(17 : Rat) / 2)), ([0, 0], some (-13))]] := by decide +kernel
+
+-- C04_batch, C04_score_per_element, C04_complete, C04_complete_of_live on element 1 (distribution 5) of it
+example : True := by
+  obtain ⟨out, hout⟩ := exBatch_ok
+  have hinit : ∀ s ∈ [0, 5], ∃ i, (fun i (h : List Int) (n : Nat) => n = h.length + i) i [] s := by
+    intro s hs
+    simp only [List.mem_cons, List.mem_nil_iff, or_false] at hs
+    rcases hs with rfl | rfl
+    · exact ⟨0, rfl⟩
+    · exact ⟨5, rfl⟩
+  have hb := C04_batch (cfg := exCfgWide) (specs := exSpecs) (Reps := fun i h n => n = h.length + i)
+    C04_selIns_ok exLM_family_ok (by decide) (by decide) 0 rfl (Or.inr exSpecs_live) hinit 2 hout 1 5 rfl
+  have hs := C04_score_per_element (cfg := exCfgWide) (specs := exSpecs) (Reps := fun i h n => n = h.length + i)
+    C04_selIns_ok exLM_family_ok (by decide) (by decide) 0 rfl (Or.inr exSpecs_live) hinit 2 hout 1 5 rfl 5 rfl
+  have hc := C04_complete (cfg := exCfgWide) (specs := exSpecs) (Reps := fun i h n => n = h.length + i)
+    C04_selIns_ok exLM_family_ok (by decide) (by decide) 0 rfl (Or.inr exSpecs_live) (Or.inr rfl) hinit 2 hout 1 5 rfl
+    5 rfl (by decide +kernel)
+  have hc' := C04_complete_of_live (cfg := exCfgWide) (specs := exSpecs) (Reps := fun i h n => n = h.length + i)
+    C04_selIns_ok exLM_family_ok (by decide) (by decide) 0 rfl exSpecs_live (Or.inr rfl) hinit 2 hout 1 5 rfl
+    5 rfl (by decide +kernel)
+  trivial
+
+-- the width condition is NOT trivially true: the 7 complete sequences would not fit into width 6
+example : (completeFrom (exSpecs 5) 3 (some 1) 2 []).length = 7 := by decide +kernel
+
+-- C04_normEos_range: eos = -2 with V = 3 is normalised to 1
+example : normEos 3 (some (-2)) = some (some 1) := by decide
+
 end PdtVerif.Beam
